@@ -33,13 +33,13 @@ LEVEL_NOTE = ("NOT modelled: the Go memory model (the model is sequential consis
 TRUSTED = ["the Go race detector (ThreadSanitizer runtime) and the harness's classification of its reports by stack frames",
            "footprints declared for objects outside the heap model (coq/Heap/Conc.v scen_ops), read off traversal/common.go, node/bindnode/infer.go",
            "node/basicnode as modelled in coq/Heap/BasicHeap.v (see C11)"]
-RULE = ("8 scenario kinds x GOMAXPROCS in {1,2,16} with 2-7 goroutines, plus generated 'basic' scenarios: 1-3 shared basicnode values, "
+RULE = ("10 scenario kinds (incl. clonets: schema.Clone / MergeTypeSystem out of a shared type system that others read, source described before/after; stopat: one compiled ExploreRecursive with a stopAt link condition walked by all) x GOMAXPROCS in {1,2,16} with 2-7 goroutines, plus generated 'basic' scenarios: 1-3 shared basicnode values, "
         "2-6 goroutines x 3-8 ops from the read-only vocabulary (dump, lookup, DeepEqual, Copy, dag-cbor/dag-json encode, walk with "
         "a shared selector+Config, FocusedTransform, fresh builds, AssignNode shortcut); distinct = distinct (kind, procs, spec); "
         "non-trivial = every scenario")
 EXPLANATION = ("model observation = 'norace;same' when the footprint check of the scenario's thread programs holds, else the race class "
                "the model predicts; oracle: a reported race fails with its class (the three known classes are listed findings), "
-               "'results differ' fails with results_differ.")
+               "'results differ' fails with results_differ, a shared object that does not describe itself as before (norace;changed) with shared_object_changed.")
 HARNESS_TIMEOUT = {"quick": 2400, "thorough": 7200}
 
 
